@@ -189,6 +189,26 @@ impl RtpsWriterProxy {
         }
     }
 
+    /// Same as irrelevant_change_set for every sequence number in first..=last, in constant time.
+    pub fn irrelevant_change_range_set(&mut self, first: SequenceNumber, last: SequenceNumber) {
+        if last < first {
+            return;
+        }
+        match self.reliability {
+            ReliabilityKind::Reliable => {
+                let expected = self.available_changes_max() + 1;
+                if first <= expected && last >= expected {
+                    self.highest_received_change_sn = last;
+                }
+            }
+            ReliabilityKind::BestEffort => {
+                if last > self.highest_received_change_sn {
+                    self.highest_received_change_sn = last;
+                }
+            }
+        }
+    }
+
     pub fn lost_changes_update(&mut self, first_available_seq_num: SequenceNumber) {
         // FOREACH change IN this.changes_from_writer
         // SUCH-THAT ( change.status == UNKNOWN OR change.status == MISSING
